@@ -286,8 +286,12 @@ class StubsStringGenerator:
         superclass_info = ""
         superclass_methods_text = ""
         superclass_names = []
-        if superclasses and not class_.is_abstract:
+        if superclasses:
             for superclass in superclasses:
+                if superclass == "abc.ABC":
+                    # Abstract classes are not marked by a superclass in Safe-DS
+                    continue
+
                 superclass_name = superclass.split(".")[-1]
                 is_internal_superclass = is_internal(superclass_name)
 
